@@ -53,7 +53,7 @@ def run_structural(chk, F):
     bodies = writer_bodies(F)
     chk.rule("W1.append_only", floor=14, doc="only WordWrite::write_word / WordWrite::flush are invoked on the backend (no seek/read/other &mut escape)")
     chk.rule("W2.endianness", floor=8, doc="every word handed to write_word was last transformed by to_be (BE code) / to_le (LE code), or is W::ZERO")
-    chk.rule("W3.drop", floor=3, doc="Drop flushes with the routine of the stream's endianness; into_inner flushes before moving the backend out and forgets self")
+    chk.rule("W3.drop", floor=6, doc="Drop flushes with the routine of the stream's endianness; into_inner flushes before moving the backend out and forgets self; flush_be/flush_le end every successful path with backend.flush()")
     n_ww = 0
     for b, e in bodies:
         bad = []
@@ -125,6 +125,19 @@ def run_structural(chk, F):
         else:
             oki = oki and "std::ptr::read" not in names
     chk.expect("W3.drop", "into_inner", oki, "into_inner does not flush exactly once before moving the backend out / forgetting self")
+    # flush_be / flush_le: every successful path ends by flushing the backend (after the padded word, if any)
+    for nm in ("flush_be", "flush_le"):
+        b = F.body("impls::buf_bit_writer::" + nm)
+        okf, n = True, 0
+        for p in mir.walk(b):
+            r = p.ret
+            if p.end[0] != "return" or not (isinstance(r, tuple) and r[0] == "agg" and r[3] == "Ok"):
+                continue
+            n += 1
+            names = [ev[1] for ev in p.calls() if any(backend_derived(a) for a in ev[8])]
+            okf = okf and names[-1:] == ["traits::words::WordWrite::flush"]
+        chk.expect("W3.drop", nm + ".through", okf and n >= 1,
+                   "impls::buf_bit_writer::%s has a successful path that does not end with backend.flush(): buffered bytes of the sink stay unwritten and its flush errors are lost" % nm)
     # flush() of each endianness delegates to its own helper
     for e, ety in (("be", BE), ("le", LE)):
         b = F.one(name="flush", trait_is="traits::bits::BitWrite<%s>" % ety, impl_self=WRITER)
@@ -153,6 +166,13 @@ def run_all(chk, fsets, tier):
         chk.rule("W6.content", floor=60 if i == 0 else 0,
                  doc="bit-sequence domain: with P the pending bits and F the field appended by the call (write_bits: value[0..n); write_unary: v zeros and a one; flush: zero padding), every word handed to the backend is exactly the next W bits of P ++ F in stream order (BE from the top, LE from the bottom) and the buffer keeps exactly the rest where the next call expects it; W in {8..128}, all paths, loops unrolled (write_bits) or summarised (write_unary)")
         rules_seq.run_parallel(chk, F, fs, [("writer", "W6.content", nm) for nm in ("write_bits", "write_unary", "flush_be", "flush_le")])
+    if "checks" not in fsets:
+        # quick tier: the `checks` build of the three primitives is still analysed numerically (its argument assertion computes a
+        # mask the default build does not have)
+        Fc = facts.load("checks")
+        specs = [s for s in rn.writer_specs() if s.group is None]
+        chk.rule("W4.numeric", floor=0, doc="")
+        rn.run_specs(chk, Fc, specs, "W4.numeric", "checks")
     chk.trust("rustc MIR construction and the mirx exporter")
     chk.trust("contract table sa/contracts.py (std / common_traits primitives, crate trait contracts)")
     chk.trust("exact rational simplex sa/lp.py as the entailment procedure")
